@@ -1,2 +1,3 @@
 import TinsModel.Props.C01
 #print axioms Tins.Props.C01.cursor_safe
+#print axioms Tins.Props.C01.chain_parse_safe
